@@ -1,5 +1,6 @@
 """C20 — CLI options override typeshare.toml; generated config files round-trip (cli/src/config.rs, main.rs)."""
 import itertools, re, tomllib
+import re
 from common import *
 import l2
 
@@ -18,6 +19,12 @@ SRC = "#[typeshare]\npub struct Foo {\n    pub a: Bar,\n    pub url: Url,\n    p
 
 # identifiers that contain the acronym spellings used by the file-only part
 SRC_ACR = SRC + "\n#[typeshare]\npub struct OAuthClient {\n    pub oauth_scope: String,\n    pub client_id: u8,\n    pub ipv6_addr: String,\n    pub mac_os_api: Url,\n    pub unit: Option<()>,\n}\n"
+
+
+# generic items, with and without constraints of their own, for the Swift file-only settings
+SRC_GEN = SRC + ("\n#[typeshare(swiftGenericConstraints = \"T: Equatable & Hashable\")]\npub struct Annotated<T, U> {\n    pub t: T,\n    pub u: U,\n}\n"
+                 "\n#[typeshare(swiftGenericConstraints = \"K: Comparable\")]\n#[serde(tag = \"t\", content = \"c\")]\npub enum Choice<K> {\n    One(K),\n    Two { k: K },\n}\n"
+                 "\n#[typeshare]\npub struct PlainGeneric<V> {\n    pub v: V,\n}\n")
 
 
 def toml_text(shared, tables):
@@ -239,7 +246,7 @@ def file_only(check):
                   "python": {"type_mappings": {"Url": mapped}}}
         for L in LANGS:
             with Scratch() as sc:
-                sc.write("ws/proj/src/lib.rs", SRC_ACR if L == "go" else SRC)
+                sc.write("ws/proj/src/lib.rs", SRC_ACR if L == "go" else SRC_GEN if L == "swift" else SRC)
                 sc.write("ws/typeshare.toml", toml_text({}, tables))
                 r = run_cli(["--lang", L, "-o", sc.path("out." + EXT[L]), "--swift-prefix", "P"] + lang_args(L) + [sc.path("ws/proj/src")],
                             cwd=sc.path("ws/proj"))
@@ -255,7 +262,7 @@ def file_only(check):
                 cfg = dict(tables[L], version_header=True, prefix="P" if L == "swift" else "", module_name="",
                            package={"go": "proto", "scala": "com.example", "kotlin": ""}.get(L, ""))
                 direct = runner([{"op": "generate", "lang": L, "config": cfg, "multi_file": False, "target_os": [],
-                                  "files": [{"src": SRC_ACR if L == "go" else SRC, "crate": "", "file_name": "out", "path": "src/lib.rs"}]}])[0]
+                                  "files": [{"src": SRC_ACR if L == "go" else SRC_GEN if L == "swift" else SRC, "crate": "", "file_name": "out", "path": "src/lib.rs"}]}])[0]
                 if "ok" in direct and not text.endswith(direct["ok"].get("", "\0")):
                     check.violation("%s: the binary's output under the file-only settings differs from the back end run with exactly those "
                                     "values (the latter is not the tail of the former): %s"
@@ -263,6 +270,14 @@ def file_only(check):
                                     case={"lang": L, "toml": toml_text({}, tables)}, impl={"output": text[-2500:]}, model=direct, failing_input=True)
                     return
                 missing = []
+                if L == "swift":
+                    # every generic parameter - annotated with constraints of its own or not - carries the configured ones
+                    for m in re.finditer(r"^public (?:struct|enum|indirect enum) \w+<([^>]*)>", text, re.M):
+                        for param in m.group(1).split(", "):
+                            have = set(x.strip() for x in param.partition(":")[2].split("&"))
+                            lack = [c for c in tables["swift"]["default_generic_constraints"] if c not in have]
+                            if lack:
+                                missing.append("default_generic_constraints %s on the generic parameter `%s`" % (lack, param))
                 if mapped not in text:
                     missing.append("type mapping Url -> %s" % mapped)
                 if L == "swift" and dec not in text:
